@@ -2,6 +2,7 @@ package c19
 
 import (
 	"context"
+	"encoding/json"
 	"fmt"
 	"os"
 	"path/filepath"
@@ -90,6 +91,12 @@ var tmpDir string
 
 func check(c Case) pbt.Verdict {
 	box.Silence()
+	if f := os.Getenv("VERIF_DUMP_CASE"); f != "" {
+		// debugging aid: the case about to be checked (a fatal runtime error leaves no other trace)
+		if b, err := json.Marshal(c); err == nil {
+			_ = os.WriteFile(f, b, 0o644)
+		}
+	}
 	if len(c.Forms) == 0 && c.Src != "" {
 		c.Forms = box.ParseForms(c.Src)
 		for _, f := range c.Forms {
@@ -113,7 +120,7 @@ func check(c Case) pbt.Verdict {
 	budget := 20 * time.Second
 	if relative {
 		// not screened for termination by the reference interpreter: a program that runs long is not compared
-		budget = 300 * time.Millisecond // (a runaway non-tail recursion grows the Go stack by ~0.5 GB/s: the context must end well before the 1 GB limit)
+		budget = 300 * time.Millisecond // (a non-tail recursion grows the Go stack by ~0.5 GB/s; the stack limit of 1 GB is fatal)
 	}
 	ctx, cancel := context.WithTimeout(context.Background(), budget)
 	defer cancel()
@@ -141,7 +148,7 @@ func check(c Case) pbt.Verdict {
 		}
 		return lisp.EVAL(ctx, ast, e)
 	}))
-	if relative && (time.Since(started) > 250*time.Millisecond || (routes[0].r.Err != nil && strings.Contains(routes[0].r.Err.Error(), "timeout"))) {
+	if relative && (time.Since(started) > 50*time.Millisecond /* deep but finite recursions must stay far from the stack limit on every route */ || (routes[0].r.Err != nil && strings.Contains(routes[0].r.Err.Error(), "timeout"))) {
 		return pbt.Verdict{Excluded: "model-unspecified-and-long-running", Labels: []string{"excluded:" + why + " (long running)"}}
 	}
 	if relative {
